@@ -108,6 +108,9 @@ def build(program):
             dep = [o for (cc, code), o in objs.items() if cc == c['code'] and isinstance(o, DepositMarket)][0]
             dep.SetExogenous('r', '[0.025]*60')
         for (scode, var, val) in c.get('exo', []):
+            if var not in objs[(c['code'], scode)].GetVariables():
+                # (the government classes take no good-name parameter: a renamed good is demanded through a user-declared variable)
+                objs[(c['code'], scode)].AddVariable(var, 'user-declared demand', '0.0')
             objs[(c['code'], scode)].SetExogenous(var, val)
     for f in program.get('flows', []):
         (sc, ss, dc, ds, var, expr) = f
